@@ -1163,7 +1163,13 @@ fn calculate_named_arg_order(
     let mut reordered_args: Vec<Option<Rc<Expr>>> = vec![None; func_arg_info.nargs];
     for (i, arg) in args.iter().enumerate() {
         let index = if let Some(name) = &arg.name {
-            func_arg_info.arg_indices.get_id(&name.v) as usize
+            // An argument name that is not a parameter has already been reported by
+            // calculate_func_call_order (unresolved identifier). Skip it instead of
+            // panicking in IdSet::get_id.
+            let Some(id) = func_arg_info.arg_indices.try_get_id(&name.v) else {
+                continue;
+            };
+            id as usize
         } else {
             i
         };
